@@ -66,7 +66,7 @@ inductive CPc
   | rPutNone                  -- factory: `replace_queue.put(None)`
   | rStopSet
   | rJoin
-  | exitPut (i : Nat)         -- `work_queue.put(None)`, i-th of len(procs)
+  | exitPut (i : Nat)         -- `work_queue.put(None, timeout)`, i-th of len(procs); leaves the loop when all have exited
   | exitJoin (i : Nat)        -- `procs[i].join()`
   | done
   deriving DecidableEq, Repr
@@ -325,7 +325,11 @@ def stepC (s : St) : Option St :=
   | .rStopSet => some { s with rStop := true, cpc := .rJoin }
   | .rJoin => if s.rAlive then none else some (toNextCall { s with cpc := .nextCall })
   | .exitPut i =>
-    if capFull s.cfg.workCap s.workQ then none
+    -- `put(None, timeout=…)` in a loop: a put that times out on a full queue is retried (no change of state: not a step)
+    -- unless every listed worker has an exit code — then nobody needs the remaining stop orders, the loop is left and the
+    -- join loop finds nothing to join
+    if capFull s.cfg.workCap s.workQ then
+      (if s.procs.all (workerExited s) then some { s with cpc := .done } else none)
     else
       let s := { s with workQ := s.workQ ++ [none] }
       if i + 1 < s.procs.length then some { s with cpc := .exitPut (i + 1) }
